@@ -137,15 +137,12 @@ def run(ctx):
             ctx.lost("fan-out", "Market::" + name)
             continue
         q = m.q(f)
-        cs = [c for c in q.calls(target) if c.target is not None and (c.target.impl_adt or "").endswith("orderbook::OrderBook")]
-        adapters = [c.name for c in q.calls() if c.name in ("take", "skip", "filter", "step_by", "rev", "zip", "chain", "take_while", "skip_while", "nth", "last")]
-        iters = [c for c in q.calls("iter_mut") if any(y[0] == "field" and y[2] == BF for y in walk(c.args[0]))]
-        ok = len(cs) == 1 and q.cfg.in_loop(cs[0].b) and not adapters and len(iters) == 1 and any(x[0] == "call" and x[4] == "next" for x in walk(cs[0].args[0]))
-        ok = ok and all(a[0] == "variant" and a[2] == ("Some",) for a in cs[0].guards)
+        from .stepmodel import fanout_ok
+        ok, c0, detail = fanout_ok(m, q, BF, target)
         if ok and name == "set_time":
-            ok = cs[0].args[1][0] == "param" and cs[0].args[1][2] == "t"
-        ctx.check(ok, "fan-out", name, ctx.loc(f), "Market::%s calls OrderBook::%s on every book (plain iter_mut loop)" % (name, target),
-                  "Market::%s does not reach every book: %d calls, adapters %s" % (name, len(cs), adapters))
+            ok = c0.args[1][0] == "param" and c0.args[1][2] == "t"
+        ctx.check(ok, "fan-out", name, ctx.loc(f), "Market::%s calls OrderBook::%s on every book (%s)" % (name, target, detail),
+                  "Market::%s does not reach every book: %s" % (name, detail))
     f = pub["get_time"]
     r = m.q(f).ret()
     ix = [x for x in walk(r) if x[0] in ("index", "cindex")]
@@ -188,5 +185,10 @@ def run(ctx):
     cs = [c for c in q.calls("create_order") if c.target is not None]
     ok = len(cs) == 1 and all(c_a[0] == "param" and c_a[2] == fm for c_a, fm in zip(cs[0].args[1:], cs[0].formals[1:]))
     ctx.check(ok, "market-env", "place_order", ctx.loc(f), "MarketEnv::place_order forwards asset/side/vol/trader_id/price by name", "MarketEnv::place_order forwards %s" % (cs[0].text() if cs else "nothing"))
+    # the multi-asset step refreshes and records EVERY asset, every step (siblings of the single-asset rules)
+    from . import c10, c11
+    only_menv = (("MarketEnv", m.menv_fn, "market"),)
+    c10.env_rules(ctx, m, only_menv)
+    c11.step_rules(ctx, m, only_menv)
     ctx.note("get_order_book_mut hands out &mut to one book (documented API); the shared-clock clause assumes callers do not desynchronise books through it")
     ctx.assume("ASSETS >= 1 (get_time reads book 0)")
